@@ -11,6 +11,7 @@ package main
 import (
 	"fmt"
 	"math/rand/v2"
+	"runtime"
 	"sort"
 	"strings"
 	"sync"
@@ -33,18 +34,26 @@ type params struct {
 	wideBatches, wideCases, wideAssign int
 	capBatches, capCases               int
 	dagBatches, dagCases               int
+	// real-parallelism batches (parallel.go; the first half runs in the -race build); the
+	// last case of each is the Apply-family process-history case (history.go)
+	parBatches, parCases, parUnits, parMaxRounds, parRaceDiv int
+	histPanics                                   int
 }
 
 func tierParams(tier string) params {
 	if tier == "thorough" {
 		return params{batches: 64, cases: 4000, maxSize: 12, maxAssign: 8, schedPerAssignment: 8,
-			wideBatches: 24, wideCases: 285, wideAssign: 6, capBatches: 8, capCases: 4000, dagBatches: 8, dagCases: 4000}
+			wideBatches: 24, wideCases: 285, wideAssign: 6, capBatches: 8, capCases: 4000, dagBatches: 8, dagCases: 4000,
+			parBatches: 24, parCases: 480, parUnits: 20000, parMaxRounds: 1600, parRaceDiv: 8, histPanics: 80000}
 	}
 	return params{batches: 16, cases: 2500, maxSize: 6, maxAssign: 4, schedPerAssignment: 4,
-		wideBatches: 8, wideCases: 285, wideAssign: 4, capBatches: 6, capCases: 1000, dagBatches: 4, dagCases: 1500}
+		wideBatches: 8, wideCases: 285, wideAssign: 4, capBatches: 6, capCases: 1000, dagBatches: 4, dagCases: 1500,
+		parBatches: 16, parCases: 240, parUnits: 15000, parMaxRounds: 1000, parRaceDiv: 8, histPanics: 24000}
 }
 
-func (p params) totalBatches() int { return p.batches + p.wideBatches + p.capBatches + p.dagBatches }
+func (p params) totalBatches() int {
+	return p.batches + p.wideBatches + p.capBatches + p.dagBatches + p.parBatches
+}
 
 // batchKind maps a batch number to its kind and its index within the kind.
 func (p params) batchKind(b int) (string, int) {
@@ -56,7 +65,16 @@ func (p params) batchKind(b int) (string, int) {
 	case b < p.batches+p.wideBatches+p.capBatches:
 		return "capture", b - p.batches - p.wideBatches
 	}
-	return "dag", b - p.batches - p.wideBatches - p.capBatches
+	if b < p.batches+p.wideBatches+p.capBatches+p.dagBatches {
+		return "dag", b - p.batches - p.wideBatches - p.capBatches
+	}
+	return "par", b - p.batches - p.wideBatches - p.capBatches - p.dagBatches
+}
+
+// raceBatch: the first half of the par batches runs in the -race build.
+func (p params) raceBatch(b int) bool {
+	k, idx := p.batchKind(b)
+	return k == "par" && idx < p.parBatches/2
 }
 
 func (p params) casesOf(b int) int {
@@ -67,6 +85,8 @@ func (p params) casesOf(b int) int {
 		return p.capCases
 	case "dag":
 		return p.dagCases
+	case "par":
+		return p.parCases + 1
 	}
 	return p.cases
 }
@@ -81,6 +101,8 @@ var capEntries = func() []entry {
 	}
 	return out
 }
+
+const parProcs = 8
 
 // ---- schedule description -------------------------------------------------------------
 
@@ -724,7 +746,21 @@ func main() {
 		Batches:     func(tier string) int { return tierParams(tier).totalBatches() },
 		Cases:       func(tier string, b int) int { return tierParams(tier).casesOf(b) },
 		WorkerProcs: 2,
+		RaceBatch:   func(tier string, b int) bool { return tierParams(tier).raceBatch(b) },
 		Run: func(w *vrt.W) {
+			p := tierParams(w.Tier)
+			if k, _ := p.batchKind(w.Batch); k == "par" {
+				// real goroutines on 8 processors (the cooperative batches stay at 2)
+				runtime.GOMAXPROCS(parProcs)
+				for i := w.From; i < w.To; i++ {
+					if i == p.parCases {
+						historyCase(w, i)
+					} else {
+						parCase(w, i)
+					}
+				}
+				return
+			}
 			for i := w.From; i < w.To; i++ {
 				runCase(w, i)
 			}
@@ -732,13 +768,17 @@ func main() {
 		Rule: "case = one expression tree (root combinator cycles through every exported function of the families, the rest is PRNG; size = number of combinator nodes, <=6 quick / <=12 thorough, leaves are source promises, Successful/Failed, bound arguments or Apply/FuncN/UnitN futures) over 0..4 source promises; for every success/failure assignment of the sources (all 2^n when <=4 quick / <=8 thorough, else that many random ones) 4 (quick) / 8 (thorough) schedules are run, alternately STAGED (PRNG subset of sources completed before the tree is built in controller context, then the others one at a time by a completer task, run-to-quiescence incl. the harness queue executor after each, oracle after each stage) and RACING (a builder task and one completer task per source start together), each under a fresh seeded cooperative scheduler (uniform, or PCT with 1..3 change points) that owns every atomic step of every promise and every default-executor task; nodes use the default, an inline or the harness queue executor (PRNG per node). Oracle at every quiescent point, for the root and for every intermediate node instance: IsCompleted == (three-valued left-to-right Try reference of that subexpression is determined); value == reference value (sentinel errors by pointer, panics by exposed panic value); at final quiescence additionally: completed (else never-completes), observer fired exactly once with that value, no user function ran twice, same value as in every other schedule of the same (tree, assignment). distinct_nontrivial = distinct (tree, assignment+completion order, schedule hash) triples with >=2 sources and >=1 context switch. " +
 			"Three further kinds of batches follow the classic ones. WIDE: one list-shaped node (Sequence, SequenceIterator, Traverse*, FlatMapTraverse*, iterator|seq|list.FoldFuture) or one chain of Zip3 / LiftA2..9 nodes over n leaf operands, every (family, n) pair with n in 0..8,9,10,15,16,17,31,32,33,64,65 in turn, one source promise per operand / element (a quarter of the trees: a few immediate or repeated operands, or fewer sources than elements); assignments: one failing source (not the first), two, a quarter, none, all; completion orders: PRNG, last position first, failing sources first (highest index first), index order; staged (one source per stage, oracle after each) and racing. " +
 			"CAPTURE: classic generator with a list-input root, 0..8 elements, and a tamper script on every list-input node (also on half of the wide trees): right after the library call returned (FlatMapTraverse*: at the next quiescent point of a staged schedule) the harness overwrites the elements of the slice / of the buffer behind the iterator it passed with poison values, reads on from the iterator, appends to the slice in place / feeds further elements to the iterator, and calls a second, different combinator on the same input object (before or after the poisoning; own reference); the reference of the node is the expression over the inputs as they were at the call (a single-use iterator: drained at the call). Any violation in such a run is re-run with the same scripts acting on clones of the input objects (same library calls, same schedule): clean control run => key <op>/reads-input-after-return. " +
-			"DAG: classic generator in which an operand may be a second use of the future of an earlier node instance of the same strict region (or of an enclosing one, from inside a function body), 1..3 OnComplete observers on the root on different executors, each of which must fire exactly once with the value.",
+			"DAG: classic generator in which an operand may be a second use of the future of an earlier node instance of the same strict region (or of an enclosing one, from inside a function body), 1..3 OnComplete observers on the root on different executors, each of which must fire exactly once with the value. " +
+			"PAR (real parallelism; first half of these batches in the -race build, GOMAXPROCS 8): one tree per case - three in four a wide tree (every (family, n) pair with n in 2,3,4,5,8,9,16,17,32,33,64 in turn), else a classic or dag tree - run for many instances (fresh promises and builder each; count = fixed work units / tree cost, 16..1000 quick) on REAL goroutines: the default executors start real goroutines, the sources of an instance are dealt to 2..6 goroutines that leave a spin barrier at the same instant (+ PRNG skew of <=100 ns), optionally together with the goroutine that builds the tree; executors as generated / every node inline (callbacks run on the completers' goroutines) / every node default / every node on the harness queue (released at quiescence, dealt to <= 6 goroutines that start together); Gosched injected at 0..5/8 of the promise atomic steps; sources completed before the build / in a first / in a second wave. Every second burst is 'tight': up to 32 instances back to back through the same goroutines, all sources at once, nothing injected. Oracle at EXACT quiescence (every goroutine that can touch the tree is counted, a task is counted before its parent ends; no timers): every node instance completed iff its reference is determined, reference value, at the end everything completed (else <op>/never-completes(parallel)), observers exactly once, no user function twice; a task parked forever in a blocking wait (decided from the goroutine states: every outstanding counted goroutine blocked, nothing moved between two looks) is reported too. DATA RACE reports of the -race batches inside csgura/fp are violations. " +
+			"HISTORY (last case of every par batch): >= 24 000 (quick) / 80 000 (thorough) Apply/Apply2/Func0..9/Unit1..9 calls with a panicking body in ONE process, in waves of 16..127 calls mixed 7:1 with normal / error-returning ones, on the default (real goroutines), inline and queue executors; at the exact quiescence after every wave every future of the wave must be completed with its reference value (panic: Failure exposing the panic value); a final sweep runs a normal and a panicking call of every (function, executor) pair; a call that never returns / a task blocked forever is recognised from the goroutine states: <op>/never-completes(process-history).",
 		Assumptions: []string{
 			"interleavings are explored at the granularity of the atomic steps of internal/atomic.Value (hook before each step) and of executor tasks; they are sampled (uniform + PCT), not enumerated",
 			"the scheduler serialises tasks: only sequentially consistent interleavings are explored",
 			"'always completes' is decided as a bounded safety property: at quiescence of a scheduler that owns every task, with all sources completed, the derived future is complete; futures completed by timers (future.Await, promise.WithTimeout) are out of scope",
 			"distinct.* counters are distinct within each batch, summed over batches",
 			"input capture: a combinator must evaluate the inputs it was called with; for a single-use fp.Iterator argument this is modelled as what the unchanged library does - the iterator is drained before the call returns - so a later read by the caller finds nothing, elements fed later are never consumed, and a second combinator called on it sees exactly the later elements",
+			"par batches: 'quiescence' counts the goroutines the harness starts and every task handed to fp.VerifSetSpawn; library code that starts a goroutine with a bare go statement (none in the unchanged tree) would escape the count",
+			"par batches: whether two callbacks really overlap in time is up to the machine (true parallelism needs >= 2 free cores); the verdict never depends on it, only the chance to see a parallel-only defect does",
 			"the second call on the input of list.FoldFuture (an fp.List view of the caller's slice) is always made before the slice is overwritten, so nothing is assumed about list.FromSlice sharing storage",
 		},
 		Floors: func(tier string) map[string]int64 {
@@ -786,6 +826,26 @@ func main() {
 				"dag.trees_with_shared_future":                            {1500, 10000},
 				"dag.second_uses_of_a_future_checked":                     {30000, 600000},
 				"dag.schedules_with_several_observers":                    {20000, 400000},
+			}
+			// par batches (real goroutines) and their process-history cases
+			for k, v := range map[string][2]int64{
+				"par.trees": {3400, 10000}, "par.rounds": {750000, 2600000}, "par.rounds.tight": {650000, 2300000},
+				"par.rounds.all-inline": {250000, 850000}, "par.rounds.all-default": {250000, 850000},
+				"par.rounds.as-generated": {120000, 400000}, "par.rounds.all-queue": {120000, 400000},
+				"par.rounds.with_gosched_injection": {45000, 150000}, "par.rounds.tree_built_concurrently": {22000, 75000},
+				"par.rounds.two_waves": {18000, 60000}, "par.rounds.wide.ge9_sources": {85000, 300000},
+				"par.instance_waves_with_2_or_more_goroutines": {500000, 1700000}, "par.instances_asserted_still_pending": {2000000, 7000000},
+				"par.queue_tasks_released_together": {1500000, 5000000},
+				"history.cases_with_10000_or_more_panicking_calls": {16, 24}, "history.panicking_calls": {380000, 1900000},
+				"history.normal_calls_checked_after_10000_panicking_calls": {25000, 150000}, "history.final_sweep_calls": {2000, 3000},
+			} {
+				nf[k] = v
+			}
+			for _, wf := range wideFams {
+				nf["par.rounds.wide."+wf.Fam] = [2]int64{30000, 100000}
+			}
+			for _, n := range parSizes {
+				nf[fmt.Sprintf("par.trees.wide.sources_%02d", n)] = [2]int64{150, 400}
 			}
 			for _, n := range wideSizes {
 				nf[fmt.Sprintf("wide.trees.elements_%02d", n)] = [2]int64{100, 300}
